@@ -98,6 +98,7 @@ type Stats struct {
 	GoSpawns        uint64
 	SyncOps         uint64
 	StarveGuards    uint64
+	Naps            uint64
 	Fingerprint     uint64
 	Truncated       bool
 	Aborted         string
